@@ -92,5 +92,19 @@ Example cex_type_seq_headers :
   lexical_headers_of LTypeScript cex_ty_arrow = [mkHeader 0 0 3; mkHeader 4 4 10].
 Proof. vm_compute. repeat split; reflexivity. Qed.
 
+(* why a plain token does not re-enable brace groups in a parameter list (binner, bi_plain keeps the flag):
+   a brace group after a ")" at the same depth can complete a header shape that started inside the list *)
+Definition cex_param_arrow : list token :=   (* function f ( cb = ( a ) => { } ) { } *)
+  toks [(0,s_function);(1,[102]);(2,[40]);(1,[99;98]);(3,s_eq);(2,[40]);(1,[97]);(2,[41]);(2,s_arrow);(2,[123]);(2,[125]);(2,[41]);(2,[123]);(2,[125])]%Z.
+Definition cex_param_rettype : list token := (* const f = ( a : g ( x ) : T , { b } ) => { } *)
+  toks [(0,s_const);(1,[102]);(3,s_eq);(2,[40]);(1,[97]);(3,s_colon);(1,[103]);(2,[40]);(1,[120]);(2,[41]);(3,s_colon);(1,[84]);(2,[44]);
+        (2,[123]);(1,[98]);(2,[125]);(2,[41]);(2,s_arrow);(2,[123]);(2,[125])]%Z.
+Example cex_binner_headers :
+  lexical_headers_of LJavaScript cex_param_arrow = [mkHeader 1 0 12; mkHeader 3 3 9] /\
+  lexical_headers_of LTypeScript cex_param_arrow = [mkHeader 1 0 12; mkHeader 3 3 9] /\
+  lexical_headers_of LTypeScript cex_param_rettype = [mkHeader 6 6 10; mkHeader 1 0 18] /\
+  lexical_headers_of LJavaScript cex_param_rettype = [mkHeader 1 0 18].
+Proof. vm_compute. repeat split; reflexivity. Qed.
+
 Print Assumptions cex_java_header.
 Print Assumptions cex_ts_type_no_header.
